@@ -461,6 +461,13 @@ def input_paths_are_canonical(ctx, rid):
                 "the ignore root, and the same file is skipped from one working directory and formatted from another")
     fam = [f for f in p.fns.values() if f.crate == "rustfmt" and (f.root or f.id) == "rustfmt::determine_operation"]
     makers = [f for f in fam if f.locals[0] == "std::path::PathBuf"]
+    # `.map(canonicalize_or_keep)`: a function of the binary handed to an adaptor (or called) in determine_operation
+    for f in fam:
+        for c in f.calls():
+            for gid in list(c.refs) + [c.name]:
+                g = p.fns.get(gid)
+                if g is not None and g.crate == "rustfmt" and g.locals[0] == "std::path::PathBuf" and g not in makers and g not in fam:
+                    makers.append(g)
     def sources(g, depth=0):
         # calls the returned path derives from, looking into helpers of the binary that build it
         out = []
